@@ -1,6 +1,6 @@
 (* Finite domains the complete-domain theorems range over, with membership lemmas stated in Proofs/Finite.v *)
 From BE Require Export Model.Basics.
-Open Scope Z_scope.
+Local Open Scope Z_scope.
 
 Definition flag_combos : list (bool * bool) := [(false,false); (true,false); (false,true); (true,true)].
 Definition bools := [false; true].
